@@ -26,7 +26,7 @@ def run(prop, tier):
         transitions += r.generated
         notes.append("%s: %s %.1fs" % (cfg, r.summary(), r.wall))
     # 2. walks through the model (simulation) for replay
-    nwalks = 60 if tier == "quick" else 600
+    nwalks = 60 if tier == "quick" else 3000
     r = vlib.run_tlc("MC_RateLimiter", "MC_RateLimiterWalk.cfg", wd, workers=1, timeout=900,
                      simulate="num=%d" % nwalks, depth=100, extra=["-seed", str(seed)])
     if not r.ok:
@@ -36,7 +36,7 @@ def run(prop, tier):
     inp = os.path.join(wd, "walks.ndjson")
     outp = os.path.join(wd, "observed.ndjson")
     vlib.write_ndjson(inp, walks)
-    nrand = 150 if tier == "quick" else 2000
+    nrand = 150 if tier == "quick" else 10000
     vlib.run_bin(hx, ["rl", "--in", inp, "--out", outp, "--seed", str(seed), "--random", str(nrand), "--len", "60" if tier == "quick" else "100"], timeout=1800)
     observed = vlib.read_ndjson(outp)
     # 3. code -> spec
